@@ -318,7 +318,11 @@ def gen_c17(ctx, names, n_random, table=None):
 # prefixes of each other, more than eight entries so that the Go map has more than one bucket)
 def extended_table(real):
     extra = [("h", 'a.h == "h"'), ("ht", 'proto.ht == "ht"'), ("http2x", 'x.y == "http2x http"'), ("ws", 'protocol.abbr == "WS"'),
-             ("web", 'request.web == "http or http2"'), ("kafka_", 'k.v == 1'), ("_dns", 'd.n.s == "_dns"')]
+             ("web", 'request.web == "http or http2"'), ("kafka_", 'k.v == 1'), ("_dns", 'd.n.s == "_dns"'),
+             # definitions whose own first and last characters are brackets, operators or quotes (a rewrite that looks at
+             # the edges of a definition to decide how to wrap it)
+             ("cpar", '(c == 1) or (p == 2)'), ("grp", '(g == 1)'), ("ngt", '!(n == 1)'), ("tl", 't.startsWith("(")'), ("ld", '(l) == 1'),
+             ("qt", '"q" == q.t')]
     return list(real) + extra
 
 
